@@ -790,7 +790,7 @@ theorem tlink_of_link {env : Env} {file : AFile} {G : List String} {P : Prog} {F
     simp [compileFn_shape, List.map_map, Function.comp_def]
   · rw [findFunc_mkTCtx]
     simp only [builtinNames, List.mem_cons, List.mem_singleton, List.not_mem_nil, or_false] at hb
-    rcases hb with rfl | rfl | rfl | rfl | rfl | rfl | rfl | rfl | rfl | rfl | rfl | rfl <;>
+    rcases hb with rfl | rfl | rfl | rfl | rfl | rfl | rfl | rfl | rfl | rfl | rfl | rfl | rfl <;>
       (simp only [builtinSig, Option.some.injEq, Prod.mk.injEq] at hsig; obtain ⟨hp, hr⟩ := hsig; subst hp; subst hr
        rw [hl.rt.rt _ _ rfl]; rfl)
 
